@@ -463,7 +463,11 @@ class ExceptionTrace(object):
         io.write_line("{}{}".format(indent * " ", line))
 
     def _get_relative_file_path(self, filepath):
-        cwd = os.getcwd()
+        try:
+            cwd = os.getcwd()
+        except OSError:
+            # The working directory does not exist (anymore)
+            cwd = None
 
         if cwd:
             filepath = filepath.replace(cwd + os.path.sep, "")
